@@ -48,7 +48,7 @@ let pr_str ((t, v) : pr) : string =
   match v with
   | PM m -> Printf.sprintf "%d:%d" (int_of_n t) (int_of_n m)
   | PR RNil -> Printf.sprintf "%d:r=nil" (int_of_n t)
-  | PR RPtr -> Printf.sprintf "%d:r=ptr" (int_of_n t)
+  | PR (RPtr _) -> Printf.sprintf "%d:r=ptr" (int_of_n t)
   | PR (RInt x) -> Printf.sprintf "%d:r=%d" (int_of_n t) (int_of_n x)
 
 let obs_str (o : obs) : string =
